@@ -175,7 +175,7 @@ pub fn gen_history(ch: &mut Chooser, max_steps: usize) -> History {
     let vecs = ["v1", "v2", "v3", "v4"];
     let mut tick = 0;
     for _ in 0..steps {
-        let op = ch.weighted(&[4, 6, 3, 3, 4, 5, 6, 4, 3, 3, 2, 2, 4, 2, 1, 1, 1, 1, 1]);
+        let op = ch.weighted(&[4, 6, 3, 3, 4, 5, 6, 4, 3, 3, 2, 2, 4, 2, 1, 1, 1, 1, 1, 1]);
         match op {
             15 => {
                 // a variable is assigned a new object that is equal in content to the one it holds: the old object
@@ -217,6 +217,27 @@ pub fn gen_history(ch: &mut Chooser, max_steps: usize) -> History {
                 h.forms.push(Form::Expr(Expr::App(Box::new(app("vector-ref", vec![var(&hold), Expr::Int(1)])), vec![Expr::Int(2)])));
                 h.forms.push(Form::Expr(Expr::App(Box::new(app("vector-ref", vec![var(&hold), Expr::Int(0)])), vec![])));
                 h.label("closure-escapes-through-a-side-effect");
+            }
+            19 => {
+                // a form that fails after it has assigned a global, written a vector slot and bumped a closure's state:
+                // what was done before the error stays done, for every reader
+                let k = h.forms.len();
+                let (g, v, c) = (format!("eg{}", k), format!("ev{}", k), format!("ec{}", k));
+                h.forms.push(d(&g, Expr::Int(0)));
+                h.forms.push(d(&v, app("vector", vec![Expr::Int(0), Expr::Int(0)])));
+                h.forms.push(d(&c, app("mk-counter", vec![Expr::Int(0)])));
+                let boom = match ch.below(3) {
+                    0 => app("vector-ref", vec![var(&v), Expr::Int(5)]),
+                    1 => app("car", vec![app(&c, vec![])]),
+                    _ => app("vector-set!", vec![Expr::VecLit(vec![Datum::Int(1)]), Expr::Int(0), Expr::Int(9)]),
+                };
+                h.forms.push(Form::Expr(Expr::App(
+                    Box::new(lam(&[], vec![set(&g, Expr::Int(10)), app("vector-set!", vec![var(&v), Expr::Int(1), var(&g)]), app(&c, vec![]), boom, set(&g, Expr::Int(99))])),
+                    vec![],
+                )));
+                h.forms.push(Form::Expr(app("list", vec![var(&g), app("vector-ref", vec![var(&v), Expr::Int(1)])])));
+                h.forms.push(Form::Expr(app(&c, vec![])));
+                h.label("error-after-assignments-in-one-form");
             }
             17 => {
                 // a defined procedure that mentions its own name, while the name is assigned / defined again and the old
@@ -663,6 +684,32 @@ fn alias_partition_check(h: &History, rep: &mut Report) {
     }
 }
 
+/// a run [i, j) of 2-4 consecutive definitions from `start` on, optionally extended by the form that follows; every form
+/// of it succeeds in the model without a tick (so that entering it as one text changes nothing but what is printed)
+fn joined_window(ch: &mut Chooser, forms: &[Form], start: usize) -> Option<(usize, usize)> {
+    let mut m = Machine::new(ORDERS[0]);
+    let mut fine = vec![];
+    for f in forms {
+        m.trace.clear();
+        let ok = m.eval_form(f).is_ok();
+        fine.push(ok && m.trace.is_empty());
+    }
+    let is_def = |k: usize| matches!(forms[k], Form::Define(_)) && fine[k];
+    let starts: Vec<usize> = (start..forms.len().saturating_sub(1)).filter(|k| is_def(*k) && is_def(*k + 1)).collect();
+    if starts.is_empty() {
+        return None;
+    }
+    let i = starts[ch.below(starts.len())];
+    let mut j = i + 2;
+    while j < forms.len() && j - i < 4 && is_def(j) {
+        j += 1;
+    }
+    if j < forms.len() && fine[j] && ch.chance(1, 2) {
+        j += 1;
+    }
+    Some((i, j))
+}
+
 pub fn case(ch: &mut Chooser, max_steps: usize) -> Report {
     let h = gen_history(ch, max_steps);
     let mut rep = Report::new(program_text(&h.forms[makers().len()..]));
@@ -671,7 +718,33 @@ pub fn case(ch: &mut Chooser, max_steps: usize) -> Report {
     }
     rep.nontrivial = h.labels.iter().any(|l| matches!(*l, "alias" | "write-through-container" | "write-through-list" | "write-through-captured-reference" | "two-closures-one-binding" | "vector-valued-fill"))
         && (h.labels.contains(&"vector-write") || h.labels.contains(&"several-closures"));
-    let obs = run_sut(&h.forms, Budget::GENEROUS);
+    // a third of the histories enter a run of consecutive definitions (and possibly the form after it) as ONE source
+    // text: nothing but the value printed for it may depend on where one text ends and the next begins
+    let window = if ch.chance(1, 3) { joined_window(ch, &h.forms, makers().len()) } else { None };
+    let obs = match window {
+        None => run_sut(&h.forms, Budget::GENEROUS),
+        Some((i, j)) => {
+            rep.label("several-forms-in-one-text");
+            let mut texts: Vec<String> = h.forms[..i].iter().map(render_form).collect();
+            texts.push(h.forms[i..j].iter().map(render_form).collect::<Vec<_>>().join("\n"));
+            texts.extend(h.forms[j..].iter().map(render_form));
+            let got = crate::sut::run_forms(texts, Some(Budget::GENEROUS));
+            let mut obs: Obs = got[..i.min(got.len())].to_vec();
+            if let Some(joined) = got.get(i) {
+                if matches!(joined.0, Outcome::Error(_) | Outcome::Panic { .. }) {
+                    obs.push(joined.clone());
+                }
+                while obs.len() < j - 1 {
+                    obs.push((Outcome::NoValue, vec![]));
+                }
+                if obs.len() < j {
+                    obs.push(joined.clone());
+                }
+                obs.extend(got[i + 1..].iter().cloned());
+            }
+            obs
+        }
+    };
     rep.note = obs_text(&obs[makers().len().min(obs.len())..].to_vec());
     match compare(&h.forms, &obs) {
         Cmp::Pass => {}
